@@ -59,6 +59,9 @@ func Build(name string) *Scenario {
 		sc.Faults.Down, _ = time.ParseDuration(v)
 	}
 	_, sc.ClientGivesUp = p["noretry"]
+	if v, ok := p["rbuf"]; ok {
+		sc.ReadBufs = parseInts(v)
+	}
 	if v, ok := p["hold"]; ok {
 		sc.Hold, _ = time.ParseDuration(v)
 	}
